@@ -258,7 +258,7 @@ func cmdCheck(args []string) int {
 					continue
 				}
 				if k.MatchMsg != "" || k.MatchWhere != "" {
-					if k.Harness == "" || k.Harness == h.Func {
+					if k.Harness == "" || harnessListed(k.Harness, h.Func) {
 						cfg.KnownSigs = append(cfg.KnownSigs, KnownSig{ID: k.ID, MatchMsg: k.MatchMsg, MatchWhere: k.MatchWhere, MatchKind: k.MatchKind})
 					}
 				} else {
@@ -341,12 +341,12 @@ func cmdCheck(args []string) int {
 		}
 		// known findings identified by call site: tallied by the main run
 		for _, k := range known {
-			if k.Status != "open" || (k.MatchMsg == "" && k.MatchWhere == "") || (k.Harness != "" && k.Harness != h.Func) {
+			if k.Status != "open" || (k.MatchMsg == "" && k.MatchWhere == "") || (k.Harness != "" && !harnessListed(k.Harness, h.Func)) {
 				continue
 			}
 			hits := st.KnownHits[k.ID]
 			if len(hits) == 0 {
-				if k.Harness == h.Func {
+				if harnessListed(k.Harness, h.Func) {
 					fmt.Printf("KNOWN-FINDING-GONE: property=%s [%s] not observed within the bound by %s (%s)\n", id, k.ID, h.Func, k.What)
 				}
 				continue
@@ -839,4 +839,14 @@ func sortedBoolKeys(m map[string]bool) []string {
 	}
 	sort.Strings(res)
 	return res
+}
+
+// harnessListed: the harness field of a known finding names one harness or several (comma separated).
+func harnessListed(list, fn string) bool {
+	for _, h := range strings.Split(list, ",") {
+		if strings.TrimSpace(h) == fn {
+			return true
+		}
+	}
+	return false
 }
